@@ -138,3 +138,77 @@ extern "C" void harness_perpath_cleanup() {
   VA(containers_empty(&rc));           // and a later Execute on the same object starts clean as well
   verif_reach();
 }
+
+// ---- C08/C09: GetIntersection returns the rectangle-edge crossing closest to p -----------------------------------------------
+// GetSegmentIntersection (double cross products + GetSegmentIntersectPt) is replaced by its exact meaning for inputs in general
+// position: "the open segment p-p2 properly crosses this rectangle edge", computed once per edge in the harness.
+#ifndef GIL
+#define GIL 4
+#endif
+static const Point64* g_rp; static bool g_cross[4]; static Point64 g_p, g_p2; static int g_seg_calls;
+static int edge_of(const Point64* a, const Point64* b) {
+  long i = a - g_rp, j = b - g_rp;
+  if (i == 0 && j == 3) return 0; if (i == 0 && j == 1) return 1; if (i == 1 && j == 2) return 2; if (i == 2 && j == 3) return 3;
+  return -1;
+}
+extern "C" __attribute__((noinline)) bool stub_segint(const Point64& p1, const Point64& p2, const Point64& p3, const Point64& p4, Point64& ip) {
+  int e = edge_of(&p3, &p4);
+  VA(e >= 0); ASSUME(e >= 0);
+  VA(p1 == g_p && p2 == g_p2);
+  g_seg_calls++;
+  ip = Point64((int64_t)e, (int64_t)e);
+  return g_cross[e];
+}
+// oracle arithmetic in 32 bits (coordinates are below 2^12 in this harness, products below 2^26): small multipliers for the solver
+static inline int32_t orient(const Point64& a, const Point64& b, const Point64& c) { return (int32_t)(b.x - a.x) * (int32_t)(c.y - a.y) - (int32_t)(b.y - a.y) * (int32_t)(c.x - a.x); }
+static inline bool proper_cross(const Point64& a, const Point64& b, const Point64& c, const Point64& d) {
+  int32_t o1 = orient(a, b, c), o2 = orient(a, b, d), o3 = orient(c, d, a), o4 = orient(c, d, b);
+  return ((o1 > 0) != (o2 > 0)) && ((o3 > 0) != (o4 > 0));
+}
+extern "C" void harness_getintersection() {
+  const int64_t L = (int64_t)1 << GIL;
+  Rect64 r(nd_range(-L, L), nd_range(-L, L), nd_range(-L, L), nd_range(-L, L)); ASSUME(r.left < r.right && r.top < r.bottom);
+  Path64 rp = r.AsPath(); g_rp = rp.data();
+  Point64 p(nd_range(-L, L), nd_range(-L, L)), p2(nd_range(-L, L), nd_range(-L, L));
+  // general position: neither end point on an edge line, the segment through no corner
+  ASSUME(p.x != r.left && p.x != r.right && p.y != r.top && p.y != r.bottom && p2.x != r.left && p2.x != r.right && p2.y != r.top && p2.y != r.bottom);
+  for (int k = 0; k < 4; ++k) ASSUME(orient(p, p2, rp[k]) != 0);
+#ifdef LOC0
+  Location loc0 = (Location)LOC0, loc = loc0;
+#else
+  Location loc0 = (Location)nd_int(0, 3), loc = loc0;
+#endif
+  // loc names a half-plane that strictly contains p (p is outside the rectangle)
+  ASSUME((loc0 == Location::Left && p.x < r.left) || (loc0 == Location::Right && p.x > r.right) || (loc0 == Location::Top && p.y < r.top) || (loc0 == Location::Bottom && p.y > r.bottom));
+  g_p = p; g_p2 = p2;
+  const int A[4] = {0, 0, 1, 2}, B[4] = {3, 1, 2, 3};
+  for (int e = 0; e < 4; ++e) g_cross[e] = proper_cross(p, p2, rp[A[e]], rp[B[e]]);
+  // the crossing closest to p: the rectangle is convex and p is outside, so the segment meets the boundary at most twice, and the
+  // crossing nearer to p is the entry crossing = the (unique) crossed edge that has p strictly on its outer side
+  bool outer[4] = {p.x < r.left, p.y < r.top, p.x > r.right, p.y > r.bottom};
+  int best = -1;
+  for (int e = 0; e < 4; ++e) if (g_cross[e] && outer[e]) best = e;
+  bool any = g_cross[0] || g_cross[1] || g_cross[2] || g_cross[3];
+  ASSUME(!any || best >= 0);           // (geometric lemma above: a crossed boundary has an entry edge; keeps the query about the code)
+  Point64 ip;
+  bool got = GetIntersection(rp, p, p2, loc, ip);
+  VA(got == (best >= 0));
+  if (got) { VA((int)loc == best); VA(ip.x == best); } else VA(loc == loc0);
+  verif_reach();
+}
+
+// C10: RectClipLines64::Execute on a sequence of paths, one of them a single point (real code, memory checks on)
+extern "C" void harness_lines_sequence() {
+  Rect64 r(0, 0, 100, 100);
+  RectClipLines64& rc = *new RectClipLines64(r);
+  int64_t y = 50, px = 50; bool twice = nondet_bool();   // geometry concrete: the point is the memory behaviour of the real containers
+  Paths64 in(3);
+  in[0].push_back(Point64((int64_t)-10, y)); in[0].push_back(Point64((int64_t)110, y));       // crosses the rectangle
+  in[1].push_back(Point64(px, y));                                                              // a single point inside
+  in[2].push_back(Point64((int64_t)20, (int64_t)20)); in[2].push_back(Point64((int64_t)30, (int64_t)40));   // entirely inside
+  Paths64 out = rc.Execute(in);
+  VA(out.size() == 2);
+  if (out.size() == 2) { VA(out[0].size() == 2 && out[0][0].y == y && out[0][1].y == y); VA(out[1].size() == 2 && out[1][0].x == 20 && out[1][1].x == 30); }
+  if (twice) { Paths64 again = rc.Execute(in); VA(again.size() == 2); }      // same object, second call
+  verif_reach();
+}
